@@ -552,8 +552,16 @@ func c12MoveRun(w *c12World, c c12MoveCase) (sig, what string) {
 	return "", ""
 }
 
+func c12AgedCheck(x *cpuCtx, c *cpuCase) (string, string) {
+	sig, what, _ := c12StepCheck(x, c)
+	return sig, what
+}
+
 func replayC12(raw json.RawMessage) (string, error) {
 	cpuDirtIRQ = true
+	if ok, what, err := cpuAgedReplay(raw, c12AgedCheck); ok {
+		return what, err
+	}
 	var pp progPath
 	if json.Unmarshal(raw, &pp) == nil && len(pp.Syms) > 0 {
 		return progReplay(pp, progSeeds(true), progAlphabetInt(), false, c12ProgOracle, progOwnPC)
@@ -647,6 +655,7 @@ func runC12(r *report.Run) {
 	// ---- Step part: single steps
 	o := cpuSweepOpts{thorough: thorough, withE: true, withInt: true, seed: r.Seed}
 	var nontriv, total int64
+	agedSteps := cpuAgedAll(r, thorough, true, c12AgedCheck)
 	counts := cpuEnumerate(o, nil, func(x *cpuCtx, c *cpuCase) {
 		for _, stp := range []bool{false, true} {
 			cc := *c
@@ -758,7 +767,7 @@ func runC12(r *report.Run) {
 	r.Set("states", total+st+executed)
 	r.Set("transitions", 2*total+2*tr+executed)
 	r.Set("traces_validated_against_impl", 2*total+2*tr+executed)
-	r.Set("evaluations", 2*total+2*tr+executed)
+	r.Set("evaluations", 2*total+2*tr+executed+agedSteps)
 	r.Set("distinct_nontrivial", nontriv+executed)
 	for i, cs := range cpuSampled {
 		if i%8 == 0 {
